@@ -302,4 +302,16 @@ example :
     longestChain (infosOf witness) (wedgesOf es) = 7 := by
   decide +kernel
 
+-- the equality clause cannot be weakened to "p does not start at a load node": the path 1 → 2 of the
+-- witness starts at the instruction node, is reported with total 3 (= its path weight, as
+-- `cpReport_total_eq_path` says), but the chain 1 → 2 of the property has length 7, because the load
+-- stage of instruction 1 belongs to the chain whether or not the path visits the load node
+example :
+    let es := create .x86 false {} witness
+    let p : List Node := [⟨1, false⟩, ⟨2, false⟩]
+    isPath es p = true ∧ total (cpReport witness es p) = 3 ∧
+    pathW (edgeW es) p + latOfK witness (lastLine p) = 3 ∧
+    (chainOf es p).len (infosOf witness) = 7 := by
+  decide +kernel
+
 end OsacaVerif.Props.C04
